@@ -221,7 +221,7 @@ def describe():
     }
 
 def _with_tracer(scn):
-    if scn['tracer']['present'] or scn['machine'] == '48K':
+    if 'tracer' not in scn or scn['tracer']['present'] or scn['machine'] == '48K':
         return None
     scn['tracer'] = {'present': True, 'in_r_c': True, 'ini': True}
     return scn
